@@ -11,7 +11,7 @@ PROP = {'engine': 'c01',
          'away other candidate sets, one reopened from disk); every fourth scenario is followed by a vote-flow scenario (two candidates, up to 8 voters funded with 30M LEMO; '
          'per block 2..4 transfers of 50..97 % of the payer\'s balance between voters, payers and receivers (re-)voting behind their transfer in the same block) aimed at the '
          'end-of-block pass that walks a hash map of balance changes; distinct = distinct (deputy count, height, candidate kind sequence); '
-         'non-trivial = at least one discarded candidate and at least two tx types included From the third block on deputies (funded then) move the income address of their candidate profile in a third of the blocks: who is paid a block\'s fees depends on the state at its parent only.',
+         'non-trivial = at least one discarded candidate and at least two tx types included From the third block on deputies (funded then) move the income address of their candidate profile in a third of the blocks: who is paid a block\'s fees depends on the state at its parent only. Every eighth scenario is followed by slow-contract blocks: the miner path has 3..25 ms left for packaging while a call runs a 20..60 M gas loop (alone, behind a store call, inside a box); every validator must accept what was packaged.',
  'assumptions': ['stable pointers of all nodes are aligned at reward heights (refund list is read from the stable candidate file)',
                  "snapshot-height blocks carry no transactions (vote changes inside a snapshot block are C10's known finding)",
                  'block time is crafted in the past; the only wall-clock input of validation is time <= now+1'],
